@@ -629,45 +629,64 @@ func (ndb *nodeDB) DeleteVersionsFrom(fromVersion int64) error {
 	}
 	ndb.mtx.Unlock()
 
-	// Delete the legacy versions
 	legacyLatestVersion, err := ndb.getLegacyLatestVersion()
 	if err != nil {
 		return err
 	}
-	dumpFromVersion := fromVersion
-	if legacyLatestVersion >= fromVersion {
-		deleted := make(map[string]struct{})
-		if err := ndb.traverseRange(legacyRootKeyFormat.Key(fromVersion), legacyRootKeyFormat.Key(legacyLatestVersion+1), func(k, v []byte) error {
-			var version int64
-			legacyRootKeyFormat.Scan(k, &version)
-			// delete the legacy nodes (an empty root value is the empty tree: nothing to delete)
-			if len(v) > 0 {
-				if err := ndb.deleteLegacyNodes(version, v, deleted); err != nil {
-					return err
-				}
-			}
-			// it will skip the orphans because orphans will be removed at once in `deleteLegacyVersions`
-			// delete the legacy root
-			return ndb.batch.Delete(k)
-		}); err != nil {
-			return err
-		}
-		// Update the legacy latest version forcibly
-		ndb.legacyLatestVersion = 0
-		fromVersion = legacyLatestVersion + 1
-	}
 
-	// Delete the nodes for new format, the latest version first and the root of a version
-	// before its other nodes, so that an interruption leaves a consistent range of versions.
-	for version := latest; version >= fromVersion; version-- {
-		// The cached latest version follows the deletions: if one of them fails part-way, it must
-		// not keep naming a version that is already (being) deleted, or a later DeleteVersionsTo
-		// would accept the removal of the real latest version.
+	// Versions are deleted from the latest one downwards - first the ones in the new format,
+	// then the legacy ones - and the root of a version before its other nodes, so that an
+	// interruption (the batch flushes automatically) leaves a contiguous range of complete
+	// versions. The cached latest version follows the deletions: if one of them fails
+	// part-way, it must not keep naming a version that is already (being) deleted, or a later
+	// DeleteVersionsTo would accept the removal of the real latest version.
+	newFormatFrom := fromVersion
+	if legacyLatestVersion >= fromVersion {
+		newFormatFrom = legacyLatestVersion + 1
+	}
+	for version := latest; version >= newFormatFrom; version-- {
 		ndb.resetLatestVersion(version - 1)
 		if err = ndb.traverseRange(nodeKeyPrefixFormat.KeyInt64(version), nodeKeyPrefixFormat.KeyInt64(version+1), func(k, _ []byte) error {
 			return ndb.batch.Delete(k)
 		}); err != nil {
 			return err
+		}
+	}
+
+	// Delete the legacy versions
+	if legacyLatestVersion >= fromVersion {
+		deleted := make(map[string]struct{})
+		type legacyRoot struct{ key, root []byte }
+		var roots []legacyRoot
+		if err := ndb.traverseRange(legacyRootKeyFormat.Key(fromVersion), legacyRootKeyFormat.Key(legacyLatestVersion+1), func(k, v []byte) error {
+			roots = append(roots, legacyRoot{key: append([]byte(nil), k...), root: append([]byte(nil), v...)})
+			return nil
+		}); err != nil {
+			return err
+		}
+		// Update the legacy latest version forcibly
+		ndb.legacyLatestVersion = 0
+		for i := len(roots) - 1; i >= 0; i-- {
+			var version int64
+			legacyRootKeyFormat.Scan(roots[i].key, &version)
+			// (the legacy version list may have holes: the next lower version is the one of
+			// the previous root record)
+			below := fromVersion - 1
+			if i > 0 {
+				legacyRootKeyFormat.Scan(roots[i-1].key, &below)
+			}
+			ndb.resetLatestVersion(below)
+			// delete the legacy root
+			if err := ndb.batch.Delete(roots[i].key); err != nil {
+				return err
+			}
+			// delete the legacy nodes (an empty root value is the empty tree: nothing to delete)
+			// it will skip the orphans because orphans will be removed at once in `deleteLegacyVersions`
+			if len(roots[i].root) > 0 {
+				if err := ndb.deleteLegacyNodes(version, roots[i].root, deleted); err != nil {
+					return err
+				}
+			}
 		}
 	}
 
@@ -686,7 +705,7 @@ func (ndb *nodeDB) DeleteVersionsFrom(fromVersion int64) error {
 		}
 	}
 
-	ndb.resetLatestVersion(dumpFromVersion - 1)
+	ndb.resetLatestVersion(fromVersion - 1)
 
 	return nil
 }
